@@ -1,17 +1,67 @@
 ---- MODULE GenL ----
-(* emits lattice cases: pairs (IoU, too_far), own-area sets, NMS lists *)
-EXTENDS Nms, Json
-Boxes == [x : {-2, 0, 1, 3}, y : {0, 1}, w : {2, 4}, h : {2, 6}, k : {0, 1, 5, -2}]
-VARIABLES mode, a, b, c, done
+(* Generation instance of Lattice.tla: one JSON line per case with the exact values the           *)
+(* specification computes.                                                                          *)
+(*   Mode = "pair"   : every ordered pair (first alphabet x second alphabet)          -> C08      *)
+(*   Mode = "own"    : every multiset of 1..3 boxes of the own-area alphabet           -> C15      *)
+(*   Mode = "ownsim" : random lists of 4..8 axis-aligned boxes (TLC -simulate)         -> C15      *)
+(* Two-stage Next: the first box is chosen in the first step so that TLC's workers share the rest. *)
+EXTENDS Lattice, Json
+CONSTANTS Mode, Tier      \* Tier: "quick" | "thorough" (TLC configuration files cannot hold negative numbers)
+VARIABLES stage, c
+vars == <<stage, c>>
+T(q, th) == IF Tier = "quick" THEN q ELSE th
+(* pairs: the first box sits near the origin (common translations are applied by the replay harness) *)
+XA == {0, 1}
+YA == T({0}, {0, 1})
+WA == {1, 2, 4}
+HA == T({2, 3}, {2, 3, 6})
+KA == T({0, 1, -2, 5}, {0, 1, -2, 5, 3, -8})
+XB == T(-4..4, -5..5)
+YB == T({-3, -1, 0, 1, 2}, {-4, -3, -1, 0, 1, 2, 4})
+WB == {1, 2, 4}
+HB == T({2, 3}, {2, 3, 6})
+KB == T({0, 1, 2, -1}, {0, 1, 2, -1, -4, 7})
+ABoxes == [x : XA, y : YA, w : WA, h : HA, k : KA]
+BBoxes == [x : XB, y : YB, w : WB, h : HB, k : KB]
+(* own areas: lists <<a>>, <<a, b>>, <<a, b, d>> with a axis-aligned, b possibly rotated by a quarter turn and d by
+   minus a half turn (so shared edges, identical boxes, nested boxes and right-angle rotations all occur; the replay
+   harness tries every order of the list).  At most two boxes of a list carry an angle.                            *)
+OX == T({-2, 0, 1}, {-2, 0, 1, 3})
+OY == {0, 1}
+OW == {2, 4}
+OH == T({2, 6}, {2, 3, 6})
+OBoxes(ks) == [x : OX, y : OY, w : OW, h : OH, k : ks]
+(* random lists of 4..8 boxes without angle (an angle k * pi / 2 is never exact in f32, and the boolean operations of
+   the geo crate fail on some almost-degenerate lists - finding F10; such lists are enumerated, not drawn at random,
+   so that each failing input is known by name)                                                                   *)
+SBoxes == [x : -3..3, y : -2..2, w : {1, 2, 4}, h : {2, 3, 6}, k : {0}]
+Code(b) == ((((b.x + 50) * 100 + (b.y + 50)) * 20 + b.w) * 20 + b.h) * 40 + (b.k + 20)      \* a total order on boxes
+
 PJ(bx) == [x |-> bx.x, y |-> bx.y, w |-> bx.w, h |-> bx.h, k |-> bx.k]
-Init == mode \in {"pair", "own"} /\ a \in Boxes /\ b \in Boxes /\ c \in Boxes /\ done = FALSE
-        /\ (mode = "pair" => c = CHOOSE z \in Boxes : TRUE)
-        /\ (mode = "own" => (a.k = 0 /\ b.k \in {0, 1} /\ c.k \in {0, -2} /\ a.y = 0 /\ c.h = 2))
-Next == done = FALSE /\ done' = TRUE /\ UNCHANGED <<mode, a, b, c>>
-Emit == done => PrintT(<<"REPLAY", ToJson(
-          IF mode = "pair"
-          THEN [kind |-> "pair", a |-> PJ(a), b |-> PJ(b), inter16 |-> L!Inter16(a, b), union16 |-> L!Union16(a, b),
-                toofar |-> L!TooFar(a, b), touching |-> L!Touching(a, b), areaA16 |-> L!Area16(a), r16 |-> L!R16(a)]
-          ELSE [kind |-> "own", boxes |-> <<PJ(a), PJ(b), PJ(c)>>,
-                own |-> [i \in 1..3 |-> L!Own(<<a, b, c>>, i)], cells |-> [i \in 1..3 |-> Cardinality(L!Cells(<<a, b, c>>[i]))]])>>)
+PairCase(a, b) ==
+  [kind |-> "pair", a |-> PJ(a), b |-> PJ(b), inter16 |-> Inter16(a, b), union16 |-> Union16(a, b),
+   areaA16 |-> Area16(a), areaB16 |-> Area16(b), toofar |-> TooFar(a, b), touching |-> Touching(a, b),
+   d16 |-> D16(a, b), ra16 |-> R16(a), rb16 |-> R16(b), cls |-> Class(a, b), edge |-> SharedEdgeLine(a, b),
+   aligned |-> (a.k % 2 = 0 /\ b.k % 2 = 0)]
+OwnCase(bs) ==
+  [kind |-> "own", boxes |-> [i \in DOMAIN bs |-> PJ(bs[i])], own |-> [i \in DOMAIN bs |-> Own(bs, i)],
+   cells |-> [i \in DOMAIN bs |-> Cardinality(Cells(bs[i]))]]
+
+Init == stage = 0 /\ c = [kind |-> "init"]
+Next ==
+  \/ /\ stage = 0 /\ Mode = "pair" /\ stage' = 1 /\ \E a \in ABoxes : c' = [a |-> a]
+  \/ /\ stage = 1 /\ Mode = "pair" /\ stage' = 2 /\ \E b \in BBoxes : c' = PairCase(c.a, b)
+  \/ /\ stage = 0 /\ Mode = "own" /\ stage' = 1 /\ \E a \in OBoxes({0}) : c' = [a |-> a]
+  \/ /\ stage = 1 /\ Mode = "own" /\ stage' = 2
+     /\ \/ c' = OwnCase(<<c.a>>)
+        \/ \E b \in OBoxes({0, 1}) : (b.k = 0 => Code(c.a) <= Code(b)) /\ c' = OwnCase(<<c.a, b>>)
+        \/ \E b \in OBoxes({0, 1}), d \in OBoxes({0, -2}) :
+              /\ (b.k = 0 => Code(c.a) <= Code(b)) /\ (d.k = 0 => Code(c.a) <= Code(d)) /\ ((b.k = 0 /\ d.k = 0) => Code(b) <= Code(d))
+              /\ c' = OwnCase(<<c.a, b, d>>)
+  \/ /\ stage = 0 /\ Mode = "ownsim" /\ stage' = 1 /\ \E n \in 4..8 : c' = [n |-> n, bs |-> <<>>]
+  \/ /\ stage = 1 /\ Mode = "ownsim" /\ Len(c.bs) < c.n /\ stage' = 1
+     /\ \E b \in SBoxes : c' = [c EXCEPT !.bs = Append(@, b)]
+  \/ /\ stage = 1 /\ Mode = "ownsim" /\ Len(c.bs) = c.n /\ stage' = 2 /\ c' = OwnCase(c.bs)
+Spec == Init /\ [][Next]_vars
+Emit == stage = 2 => PrintT(<<"REPLAY", ToJson(c)>>)
 ====
